@@ -141,5 +141,5 @@ class SocketSpawn(SpawnBase):
                     self.flag_eof = True
                     raise EOF("Socket closed")
                 return s
-        except socket.timeout:
+        except (socket.timeout, BlockingIOError):
             raise TIMEOUT("Timeout exceeded.")
